@@ -36,6 +36,9 @@ def build_cases(tier, seed):
             # a station changes hands while vehicles wait or charge there
             prof["fleets"] = [2, 3, 0][(i // 10) % 3]
             opts_ = {"cosim_ops": {"every": 6, "kinds": ["change_station_membership"]}}
+        if i % 10 == 8:
+            # a depot that is the home base of up to three drivers, most of whom start the run there
+            prof.update({"fleets": 2, "depot": 1.0, "p_human": 0.7, "network": "euclidean"})
         if i % 10 == 6:
             prof["shared_ids"] = 0.6  # ids are per kind: a depot entered as base "b1" with its plugs as station "b1"
         cases.append(trace_case("C02", i, s, prof, ctrl, steps, ["C02"], opts=opts_ or ({"inject_requests": {"every": 6, "public": i % 10 == 7}} if i % 5 == 2 else {"cosim_ops": {"every": 8, "kinds": ["append_plugs", "append_plugs", "scale_rate"]}} if i % 5 == 4 else {})))
